@@ -57,7 +57,7 @@ from vlib import *
 
 PROP = "C12"
 CLASSES = ["dt_sum_eq_max", "dt_wall_sum_eq_1", "wt_int64_overflow", "wt_unsaturated", "wt_past_nonneg_delta"]
-MUTANTS = ["no_range_check", "wall_as_mono", "timeout_noclamp", "underflow_forever"]
+MUTANTS = ["no_range_check", "wall_as_mono", "timeout_noclamp", "underflow_forever"]   # quick: the first three
 FNID = {"time": 0, "walltime": 1, "walltime_null": 2, "timeout": 3}
 
 
@@ -193,7 +193,7 @@ def model(v, tier):
     T("pinned", _cfg("Time_pinned.cfg", "pinned.cfg", Thorough=thorough), workers=w, timeout=big_to)
     # emission of the exhaustive table (three parts in parallel)
     tables = []
-    for part in ("time", "wall", "misc"):
+    for part in ("time", "wall"):
         out = os.path.join(d, "table8_%s.ndjson" % part)
         if os.path.exists(out):
             os.unlink(out)
@@ -209,11 +209,13 @@ def model(v, tier):
             lm[W_] = out
             T("emit_lm%d" % W_, _cfg("Time_emit.cfg", "emit_lm%d.cfg" % W_, W=str(W_), Landmarks="TRUE",
                                      Part='"time"'), spec="TimeEmit.tla", workers=1, timeout=600, env={"OUT": out})
-    # the pinned algorithm does violate the property as stated, and in every class
-    T("pinned_Conforms", _cfg("Time_pinned.cfg", "p_conf.cfg", INV="Conforms"))
-    for c in CLASSES:
-        T("class_" + c, _cfg("Time_pinned.cfg", "p_%s.cfg" % c, INV="NoDev_" + c))
-    for mu in MUTANTS:
+    if tier == "thorough":
+        # the pinned algorithm does violate the property as stated, and in every class (quick reads
+        # the same fact off the `dev` column of the emitted table, see binding())
+        T("pinned_Conforms", _cfg("Time_pinned.cfg", "p_conf.cfg", INV="Conforms"))
+        for c in CLASSES:
+            T("class_" + c, _cfg("Time_pinned.cfg", "p_%s.cfg" % c, INV="NoDev_" + c))
+    for mu in (MUTANTS if tier == "thorough" else MUTANTS[:3]):
         T("mut_" + mu, _cfg("Time_fixed.cfg", "m_%s.cfg" % mu, Mut='"%s"' % mu))
     if tier == "thorough":   # another NSEC_PER_SEC (odd), same laws
         T("fixed_nps7", _cfg("Time_fixed.cfg", "fixed7.cfg", NPS="7"), workers=w, timeout=big_to)
@@ -226,23 +228,27 @@ def model(v, tier):
             continue
         r = res[name]
         v.add_model("TimeMC W=8 %s" % name, r)
+        # CONSTRAINT Prefix: the leaf states (one per input tuple, each generated exactly once by
+        # Choose) are checked against the invariants but not stored, so TLC's "distinct" counts the
+        # prefix states only; every generated state is a distinct state of the model.
+        v.states += r.generated - r.distinct
         if r.violated:
             p = save_replay(PROP, "tlc_%s.out" % name, r.out)
             if name.startswith("fixed"):
                 v.violation("the repaired algorithm (spec) violates %s at W=8" % r.violated, p)
             else:
                 v.violation("the pinned algorithm (spec) deviates outside the known classes: %s at W=8" % r.violated, p)
-    for name in ["emit_time", "emit_wall", "emit_misc"] + ["emit_lm%d" % k for k in lm]:
+    for name in ["emit_time", "emit_wall"] + ["emit_lm%d" % k for k in lm]:
         r = res[name]
         if not r.ok() or not any("EMITTED" in x for x in r.printed):
             raise Broken("vector emission %s failed:\n%s" % (name, r.out[-2000:]))
-    if not res["pinned_Conforms"].violated:
-        raise Broken("the pinned transcription does not violate Conforms: known classes would be vacuous")
-    v.notes["pinned_algorithm_violates"] = res["pinned_Conforms"].violated
-    for c in CLASSES:
-        if not res["class_" + c].violated:
-            raise Broken("known class %s contains no deviation of the pinned transcription at W=8" % c)
-    for mu in MUTANTS:
+    if tier == "thorough":
+        if not res["pinned_Conforms"].violated:
+            raise Broken("the pinned transcription does not violate Conforms: known classes would be vacuous")
+        for c in CLASSES:
+            if not res["class_" + c].violated:
+                raise Broken("known class %s contains no deviation of the pinned transcription at W=8" % c)
+    for mu in (MUTANTS if tier == "thorough" else MUTANTS[:3]):
         r = res["mut_" + mu]
         if not r.violated:
             raise Broken("spec mutant %s not refuted: the invariants are vacuous in these bounds" % mu)
@@ -339,12 +345,22 @@ def binding(v, tier, seed, tables, lm, witnesses):
     # (ii) landmark lifting of the TLC rows
     lifted = []
     nrows = 0
+    devs = [0] * (len(CLASSES) + 1)
     for t in tables:
         for r in read_table(t):
             nrows += 1
+            devs[r[11]] += r[14]
             lr = lift_row(r, 8, 64)
             if lr:
                 lifted.append(lr)
+    # the TLC-emitted table says where the pinned transcription deviates from the reference: only inside
+    # the named classes (TLC checked that itself: ConformsOrKnown), and in every one of them
+    if devs[0]:
+        raise Broken("TLC table: %d deviations of the pinned transcription outside the known classes" % devs[0])
+    for i, c in enumerate(CLASSES):
+        if not devs[i + 1]:
+            raise Broken("known class %s contains no deviation of the pinned transcription at W=8" % c)
+    v.notes["pinned_transcription_deviations_W8_by_class"] = {c: devs[i + 1] for i, c in enumerate(CLASSES)}
     if len(lifted) < 5000:
         raise Broken("only %d liftable rows in the TLC table" % len(lifted))
     lp = os.path.join(d, "lifted64.vec")
@@ -423,6 +439,8 @@ def run(tier, seed):
     ]
     tables, lm, witnesses = model(v, tier)
     binding(v, tier, seed, tables, lm, witnesses)
+    v.notes["states_note"] = ("states = input tuples TLC generated and checked at W=8 (leaf states are not stored: "
+                              "CONSTRAINT Prefix), transitions = TLC 'states generated'")
     v.notes["exhaustive_what"] = ("W=8: all inputs enumerated by TLC; W=64: invariants discharged by Apalache/Z3 for the "
                                   "spec's transcription (all inputs); real code: lifted TLC rows + Apalache witnesses replayed, "
                                   "reference evaluated as oracle on seeded random inputs (sampled)")
